@@ -14,7 +14,8 @@ import (
 // text JSON carries without escapes (no quotes, backslashes, control characters, <, >, &, U+2028/9)
 var textPool = []string{"alpha", "Beta Gamma", "d-e_f.g", "Ünïcödé", "日本語テキスト", "é combining", "emoji 🚀 ok", "עברית", "x", "1.2.3-rc1+build",
 	"https://example.com/a/b?c=d", "MIT OR Apache-2.0", "Copyright (c) 2024 The Authors", "tab-free text with  two spaces"}
-var spdxIDPool = []string{"a", "b", "c", "pkg-1", "File.2", "X-9", "n0", "lib.z-3", "root", "Zed"}
+// includes identifiers that merely look like the reserved, reader-generated ones
+var spdxIDPool = []string{"a", "b", "c", "pkg-1", "File.2", "X-9", "n0", "lib.z-3", "root", "Zed", "Package-autoconf", "pkg-automake--1.16", "x-auto--1", "auto", "node--7"}
 
 func txt(r *rand.Rand) string { return pick(r, textPool) }
 
@@ -168,7 +169,7 @@ func genSPDXDoc(r *rand.Rand, i int) *sbom.Document {
 	return d
 }
 
-var cdxIDPool = []string{"root", "a", "b", "c", "d", "e", "pkg:npm/x@1", "urn:cdx:ref/2", "Ünï-ref", "ref with space"}
+var cdxIDPool = []string{"root", "a", "b", "c", "d", "e", "pkg:npm/x@1", "urn:cdx:ref/2", "Ünï-ref", "ref with space", "pkg-automake--1.16", "lib-auto--2", "autoconf"}
 
 func cdxNode(r *rand.Rand, id string, p float64, v15 bool, sweep int) *sbom.Node {
 	n := &sbom.Node{Id: id, Name: txt(r)}
@@ -194,10 +195,13 @@ func cdxNode(r *rand.Rand, id string, p float64, v15 bool, sweep int) *sbom.Node
 		if r.Intn(2) == 0 {
 			n.Identifiers[1] = "pkg:npm/left-pad@1.0.0"
 		}
-		switch r.Intn(3) {
+		switch r.Intn(4) {
 		case 0:
 			n.Identifiers[3] = "cpe:2.3:a:vendor:prod:1.0:*:*:*:*:*:*:*"
 		case 1:
+			n.Identifiers[2] = "cpe:/a:vendor:prod:1.0"
+		case 2: // both: CycloneDX has one cpe field, the 2.3 form is the one carried
+			n.Identifiers[3] = "cpe:2.3:a:vendor:prod:1.0:*:*:*:*:*:*:*"
 			n.Identifiers[2] = "cpe:/a:vendor:prod:1.0"
 		}
 	}
